@@ -1047,15 +1047,15 @@ Proof.
   split; [apply rec_of_success_all|]. split; [rewrite rec_of_spec; reflexivity|apply refusals_all_zero].
 Qed.
 
-(* the witness of the open finding: a task of a toLocalIterator job creates a dataset and is not refused
-   (as long as toLocalIterator defers its tasks: the premise keeps the statement checkable after a repair) *)
-Lemma nested_refused_refuted : tli_deferred = true ->
-  ~ (forall mode maxr j, nested_all_refused (o_logs (fst (run_job mode maxr false j)))).
-Proof.
-  intros Hd H.
-  specialize (H 0 1 (mkJob 39 false [] [] [mkPart [5] [] [mkNop NCreate true] None 0])).
-  vm_compute in Hd. vm_compute in H.
-  first [ discriminate Hd
-        | inversion H as [|? ? H1 _]; subst; inversion H1 as [|? ? H2 _]; subst;
-          inversion H2 as [|? ? H3 _]; subst; discriminate ].
-Qed.
+(* toLocalIterator evaluates its partitions inside runJob ([tli_deferred] regenerated as false): the tasks of
+   EVERY job-triggering method run while the lock is held *)
+Lemma held_of_true : forall a, held_of a = true.
+Proof. intros. rewrite held_of_spec. unfold tli_deferred. rewrite andb_false_r. reflexivity. Qed.
+
+Lemma nested_refused_full : forall mode maxr j, nested_all_refused (o_logs (fst (run_job mode maxr false j))).
+Proof. intros. apply nested_refused. apply held_of_true. Qed.
+
+Lemma nested_uncaught_surfaces_full : forall mode maxr j pre p post, 1 <= maxr ->
+  j_parts j = pre ++ p :: post -> all_ok true maxr j pre = true -> cached j p = None -> uncaught (p_nest p) = true ->
+  exists logs, run_job mode maxr false j = (mkOut (JErr E_LOCKED (Z.of_nat (length pre)) maxr) logs, false).
+Proof. intros mode maxr j pre p post Hm. apply nested_uncaught_surfaces; [exact Hm|apply held_of_true]. Qed.
